@@ -76,6 +76,8 @@ int main(int argc, char **argv) {
     items.push_back({"far:table" + std::to_string(T), a, true, {""}});
   }
   items.insert(items.begin(), Item{"regs-from-reset", "BR start\nDATA 1000\nstart\nBRZ za\nBR bad\nza\nOPR ADD\nBRZ zb\nBR bad\nzb\nOPR SUB\nBRN bad\nBRZ good\nbad\nLDAC 9\nLDBM 1\nSTAI 2\nLDAC 0\nOPR SVC\ngood\nLDAC 4\nLDBM 1\nSTAI 2\nLDAC 0\nOPR SVC\n", true, {""}});
+  // stores into the word that is being executed, then runs on into the modified bytes (word 3 = LDAM 2; STAM 3; LDAC 7; LDBM 1 is overwritten by word 2 = same with LDAC 9)
+  items.insert(items.begin(), Item{"self-modifying", "BR start\nDATA 1000\nDATA 288957186\nstart\nLDAM 2\nSTAM 3\nLDAC 7\nLDBM 1\nSTAI 2\nLDAC 0\nOPR SVC\n", true, {""}});
   size_t shipped = items.size();
   uint64_t want = th ? 120000 : 6000;
   // the hand-parametrised families (scoping, recursion, strings, names, output streams, large frames, long bodies) completely
